@@ -87,6 +87,36 @@ fn files(prefix: &str, seqs: &[String], thorough: bool) -> Vec<FileCase> {
     out.push(FileCase { tags: vec!["no_final_newline"], text: base.trim_end().to_string() });
     out.push(FileCase { tags: vec!["blank_line_between_records"], text: format!("{}\n{}", r1[0].text, r2[0].text) });
     out.push(FileCase { tags: vec!["empty_header"], text: format!(">\n{}\n{}", &seqs[0], r2[0].text) });
+    // alphabet boundaries: for every IUPAC letter L beyond T, a record whose largest symbol is exactly L,
+    // with L next to every letter <= L and at every position modulo 2, 3 and 4 (the symbol packers choose
+    // their radix from the largest symbol of a segment)
+    let (s, half) = (&seqs[0], seqs[0].len() / 2);
+    let iu: Vec<char> = IUPAC.chars().collect();
+    for li in 4..iu.len() {
+        let l = iu[li];
+        // chunks of 5 ordinary bases between the tokens keep the stretch non-repetitive (a repetitive
+        // reference segment takes the plain-zstd path instead of the symbol packer)
+        let mut pat = String::new();
+        let filler: Vec<char> = seqs[1].chars().chain(seqs[2].chars()).collect();
+        let mut f = 0usize;
+        let mut tokens: Vec<String> = vec![l.to_string()];
+        for x in iu[4..=li].iter() {
+            tokens.push(format!("{x}{l}")); tokens.push(format!("{l}{x}")); tokens.push(format!("{l}{l}{x}")); tokens.push(format!("{x}{l}{l}"));
+        }
+        for t in tokens.iter().take(24) {
+            pat.push_str(t);
+            for _ in 0..5 { pat.push(filler[f % filler.len()]); f += 1; }
+        }
+        out.push(FileCase { tags: vec!["alphabet_top"], text: format!(">{prefix}1 top={l}\n{}{pat}\n{}\n{}", &s[..half], &s[half..], r2[0].text) });
+    }
+    // N runs (the delta coder has a run token for >= 3 N) directly followed / preceded by each other letter class
+    for li in 5..iu.len() {
+        let l = iu[li];
+        let lo = l.to_ascii_lowercase();
+        let pat = format!("NNN{l}A NNNN{l}{l}C{l}NNNNN nnn{lo}G NNNNNNNN{l}NNN{l}NN{l}N");
+        out.push(FileCase { tags: vec!["nrun_then_letter"], text: format!(">{prefix}1 nrun {l}\n{}{pat}\n{}\n{}", &s[..half], &s[half..], r2[0].text) });
+    }
+    out.push(FileCase { tags: vec!["nrun_then_letter"], text: format!(">{prefix}1 nrun X\n{}NNNXA NNNNXXCXNNNNN nnnxG NNNNNNNNJNNNJNNJN\n{}\n{}", &s[..half], &s[half..], r2[0].text) });
     out
 }
 
@@ -95,7 +125,7 @@ pub fn run() -> i32 {
         "C16",
         "main",
         "exploration",
-        "FASTA files of 1-3 records from a menu of 12 record shapes (plain, description, all IUPAC codes, non-IUPAC letters, digits/gaps, lower case, mixed case + CRLF, interior blank line, no sequence line, blank sequence line, one base, only non-letters) and 5 file-level shapes (leading/trailing blank lines, no final newline, blank line between records, empty header); each file is used as the reference sample and as a non-reference sample (multi-file create) and inside a single PanSN file; oracle: create exits non-zero OR every listed sample extracts without error and equals the harness normaliser and every record with >= 1 base is present. non-trivial = files containing at least one non-plain shape",
+        "FASTA files of 1-3 records from a menu of 12 record shapes (plain, description, all IUPAC codes, non-IUPAC letters, digits/gaps, lower case, mixed case + CRLF, interior blank line, no sequence line, blank sequence line, one base, only non-letters) and 5 file-level shapes (leading/trailing blank lines, no final newline, blank line between records, empty header), plus alphabet-boundary records (largest symbol exactly L, for every IUPAC letter L beyond T) and N runs adjacent to every other letter class; each file is used as the reference sample and as a non-reference sample (multi-file create) and inside a single PanSN file; oracle: create exits non-zero OR every listed sample extracts without error and equals the harness normaliser and every record with >= 1 base is present. non-trivial = files containing at least one non-plain shape",
     );
     quiet_panics();
     let th = rep.thorough();
@@ -121,7 +151,7 @@ pub fn run() -> i32 {
         let d = dir.join(format!("j{ji}"));
         std::fs::create_dir_all(&d).unwrap();
         // violation keys name the most suspicious shape in the file (not the whole combination)
-        let tags = ["leading_blank_line", "empty_header", "no_sequence", "blank_sequence_line", "only_non_letters", "non_iupac_letters", "one_base", "interior_blank_line", "blank_line_between_records", "no_final_newline", "trailing_blank_lines", "mixed_case_crlf", "digits_gaps", "iupac", "lower_case", "description"]
+        let tags = ["leading_blank_line", "empty_header", "no_sequence", "blank_sequence_line", "only_non_letters", "nrun_then_letter", "alphabet_top", "non_iupac_letters", "one_base", "interior_blank_line", "blank_line_between_records", "no_final_newline", "trailing_blank_lines", "mixed_case_crlf", "digits_gaps", "iupac", "lower_case", "description"]
             .iter().find(|t| fc.tags.contains(t)).copied().unwrap_or("plain").to_string();
         let out = d.join("out.agc");
         let mut expected: Vec<(String, Vec<(String, String)>)> = Vec::new(); // sample -> records
